@@ -13,8 +13,9 @@ Model of `dns/btreezone.py` (with the parts of `dns/zone.py` `WritableVersion`, 
 * A node is the list of its rdataset keys `(rdtype, covers)` plus the three flag bits.  Rdatasets are atomic.
 * Copy-on-write is modelled by the per-version `changed` set exactly as coded, because the flags of a
   re-created node depend on it (`_maybe_cow_with_name` re-derives ORIGIN/GLUE only).
-* `Variant` carries the decision points at which the unchanged tree violates C20 (DESIGN §6 D15, D16, D19,
-  D20, and the CNAME-at-a-cut case found while building); `asShipped` is the code, `intended` the repair.
+* `Variant` carries the decision points at which the pinned tree violated C20 (DESIGN §6 D15, D16, D19,
+  D20, and the CNAME-at-a-cut case found while building).  All are repaired in /repo now: `intended` is the code,
+  `asShipped` the code before the repairs.
 -/
 namespace Model
 namespace BTZ
